@@ -64,8 +64,8 @@ type Sym struct {
 
 // SymSeq is an opaque slice or string with an abstract length.
 type SymSeq struct {
-	Name  string
-	Len   Int
+	Name   string
+	Len    Int
 	IsStr  bool
 	Nil    bool // known-nil slice
 	NonNil bool // known non-nil slice
